@@ -748,7 +748,7 @@ func main() {
 
 	n, nbad := 2400, 240
 	if a.Tier == "thorough" {
-		n, nbad = 150000, 10000
+		n, nbad = 40000, 3000
 	}
 	var cases []pcase
 	cases = append(cases, witnesses()...)
